@@ -72,6 +72,8 @@ package history
 //@   ensures  step:    len(t.mem.db) == old(len(t.mem.db)) || len(t.mem.db) == old(len(t.mem.db)) + 1 || (old(len(t.mem.db)) == t.mem.Cfg.MaxRecords && len(t.mem.db) == t.mem.Cfg.MaxRecords)
 //@   ensures  recs:    forall i int :: 0 <= i && i < len(t.mem.db) ==> RecOK(t.mem, t.mem.db[i])
 //@   ensures  times:   !unchanged(t.mem.db) ==> len(t.mem.db) >= 1 && fresh(t.mem.db[len(t.mem.db) - 1]) && (forall i int :: 0 <= i && i < len(t.mem.cacheTrackedIdxs) && t.mem.cacheTrackedIdxs[i] < len(tx.TimeAfter) ==> t.mem.db[len(t.mem.db) - 1].Time.MTimeTracked[i] == tx.TimeAfter[t.mem.cacheTrackedIdxs[i]])
+//@   ensures  sums:    !unchanged(t.mem.db) ==> t.mem.db[len(t.mem.db) - 1].Time.MTimeSum == u64(TSum(tx.TimeAfter, len(tx.TimeAfter)))
+//@                       && t.mem.db[len(t.mem.db) - 1].Time.MTimeDiffSum == u64(u64(TSum(tx.TimeAfter, len(tx.TimeAfter))) - u64(TSum(tx.TimeBefore, len(tx.TimeBefore))))
 //@   ensures  kept:    !unchanged(t.mem.db) ==> (forall i int :: 0 <= i && i < len(t.mem.db) - 1 ==> t.mem.db[i] == old(t.mem.db)[i + (old(len(t.mem.db)) >= t.mem.Cfg.MaxRecords ? 1 : 0)])
 //@   ensures  skipped: old(tx.Mutation.IsCheck) || (!old(tx.IsAccepted) && !t.mem.Cfg.TrackRejected) ==> unchanged(t.mem.db)
 //@   ensures  locks:   unlocked(t.mem.mx)
